@@ -637,6 +637,169 @@ theorem forEach_dependencies_first {p : Proj} (h : Partition p) (nk : NamesOK p)
   · exact q
   · exact absurd ((closure_eq_reach h.1 _ _ x).1 q) (acyclic x y hxy)
 
+/-- `ForEachService` fails ("no such service") exactly when the property's reference outcome is a rejection: a requested
+name is not an enabled service, or a service of the closure has a required dependency that is not enabled -/
+theorem forEach_error_iff {p : Proj} (g : Good p) (names : List String) (opts : List Policy) :
+    forEachCalls p names opts = .noSuchService ↔ eachWanted p names (policyOf opts) = none := by
+  have ref := forEach_refines p names opts
+  have step1 : forEachCalls p names opts = .noSuchService ↔ forEachService p names (policyOf opts) = .noSuchService := by
+    cases hc : forEachCalls p names opts <;> rw [hc] at ref <;> simp only [WalkC.forget] at ref <;> rw [← ref] <;> simp
+  have step2 : forEachService p names (policyOf opts) = forEachService p (rootsOf p names) (policyOf opts) := by
+    unfold rootsOf
+    by_cases hn : names.isEmpty = true
+    · rw [if_pos hn]
+      have : names = [] := by cases names <;> simp_all
+      subst this
+      exact forEach_all p _
+    · rw [if_neg hn]
+  rw [step1, step2]
+  unfold eachWanted
+  by_cases hr : rootsOf p names = []
+  · -- no name and no enabled service: nothing to visit, nothing to reject
+    have hk : p.services = [] := by
+      unfold rootsOf at hr
+      by_cases hn : names.isEmpty = true
+      · rw [if_pos hn] at hr
+        cases hs : p.services with
+        | nil => rfl
+        | cons a b => rw [hs] at hr; simp [keys] at hr
+      · rw [if_neg hn] at hr; subst hr; simp at hn
+    rw [hr]
+    simp [forEachService, walk, walkLoop, selectWanted, closure, closureN, hk, keys]
+  · rw [selectWanted_none_iff g hr]
+    have ne : (rootsOf p names).isEmpty = false := by cases h : rootsOf p names <;> simp_all
+    cases hw : forEachService p (rootsOf p names) (policyOf opts) <;> simp [withSelectedServices, hw, ne]
+
+/-! ## round 5: accessors -/
+
+/-- `ServiceNames()` is the sorted list of the enabled keys … -/
+theorem serviceNames_exact (p : Proj) :
+    (serviceNames p).Perm (keys p.services) ∧ (serviceNames p).Pairwise (· ≤ ·) :=
+  ⟨sortNames_perm _, sortNames_sorted _⟩
+
+/-- … hence a function of the map, not of its iteration order (same for `DisabledServiceNames`) -/
+theorem serviceNames_perm {p p' : Proj} (e : SameProj p p') :
+    serviceNames p = serviceNames p' ∧ disabledServiceNames p = disabledServiceNames p' :=
+  ⟨sortNames_eq_of_perm (e.1.map _), sortNames_eq_of_perm (e.2.1.map _)⟩
+
+/-- `GetService` reads the partition: a service value iff the name is enabled, `ErrDisabled` iff it is (only)
+disabled, `ErrNotFound` iff the project does not know it -/
+theorem getService_reads_partition (p : Proj) (n : String) :
+    (∀ s, getService p n = .ok s ↔ lookup n p.services = some s) ∧
+    (getService p n = .disabled ↔ n ∉ keys p.services ∧ n ∈ keys p.disabled) ∧
+    (getService p n = .notFound ↔ n ∉ known p) := by
+  unfold getService has
+  cases hs : lookup n p.services with
+  | some s =>
+    have hk := keys_of_lookup hs
+    refine ⟨fun t => by simp, by simp [hk], by simp [mem_known, hk]⟩
+  | none =>
+    have hk := lookup_eq_none.1 hs
+    by_cases hd : n ∈ keys p.disabled
+    · have : (lookup n p.disabled).isSome = true := lookup_isSome.2 hd
+      simp [this, hk, hd, mem_known]
+    · have : (lookup n p.disabled).isSome = false := by
+        cases h : (lookup n p.disabled).isSome
+        · rfl
+        · exact absurd (lookup_isSome.1 h) hd
+      simp [this, hk, hd, mem_known]
+
+theorem getServicesLoop_ok (p : Proj) : ∀ (ns : List String) (acc m : AL Svc), getServicesLoop p ns acc = .ok m →
+    (∀ n ∈ ns, n ∈ keys p.services) ∧ ∀ k, lookup k m = if k ∈ ns then lookup k p.services else lookup k acc := by
+  intro ns
+  induction ns with
+  | nil => intro acc m h; simp only [getServicesLoop, GetMany.ok.injEq] at h; subst h; simp
+  | cons n ns ih =>
+    intro acc m h
+    unfold getServicesLoop at h
+    cases hg : getService p n with
+    | ok s =>
+      simp only [hg] at h
+      have hl := ((getService_reads_partition p n).1 s).1 hg
+      obtain ⟨a, b⟩ := ih _ _ h
+      refine ⟨fun x hx => ?_, fun k => ?_⟩
+      · rcases List.mem_cons.1 hx with e | e
+        · exact e ▸ keys_of_lookup hl
+        · exact a x e
+      · rw [b k]
+        by_cases hk : k ∈ ns
+        · simp [hk]
+        · by_cases hkn : k = n
+          · subst hkn; simp [hk, lookup_insert, hl]
+          · simp [hk, hkn, lookup_insert]
+    | disabled => simp [hg] at h
+    | notFound => simp [hg] at h
+
+/-- `GetServices(names…)`: succeeds only if every name is enabled and then returns exactly the named enabled
+services; without a name it returns the service map -/
+theorem getServices_exact (p : Proj) (names : List String) (m : AL Svc) (h : getServices p names = .ok m) :
+    (∀ n ∈ names, n ∈ keys p.services) ∧
+    ∀ k, lookup k m = if names = [] ∨ k ∈ names then lookup k p.services else none := by
+  unfold getServices at h
+  by_cases hn : names.isEmpty = true
+  · have : names = [] := by cases names <;> simp_all
+    subst this
+    simp only [List.isEmpty_nil, if_true, GetMany.ok.injEq] at h
+    subst h
+    simp
+  · rw [if_neg hn] at h
+    have hne : names ≠ [] := fun c => hn (by simp [c])
+    obtain ⟨a, b⟩ := getServicesLoop_ok p names [] m h
+    refine ⟨a, fun k => ?_⟩
+    rw [b k]
+    simp [hne, lookup]
+
+/-- `GetDependentsForService(s)` of an enabled service filed under its own name: exactly the services the
+`IncludeDependents` policy pulls in, sorted -/
+theorem getDependents_exact {p : Proj} (nd : (keys p.services).Nodup) (nk : NamesOK p) {x : String} {s : Svc}
+    (hs : lookup x p.services = some s) (y : String) :
+    y ∈ getDependentsForService p s ↔ Edge p.services .dependents x y := by
+  unfold getDependentsForService
+  rw [mem_sortNames]
+  have hname : s.name = x := nk.services _ (mem_of_lookup hs)
+  rw [mem_keys_dependents nk.services hname]
+  unfold Edge
+  exact ⟨fun ⟨s', hm, hd⟩ => ⟨keys_of_lookup hs, s', lookup_of_mem nd hm, hd⟩,
+    fun ⟨_, s', hl, hd⟩ => ⟨s', mem_of_lookup hl, hd⟩⟩
+
+/-! ## round 5: compositions -/
+
+/-- disabling in two calls is disabling the concatenated argument list in one -/
+theorem disable_disable (p : Proj) (a b : List String) :
+    withServicesDisabled (withServicesDisabled p a) b = withServicesDisabled p (a ++ b) := by
+  simp [withServicesDisabled, List.foldl_append]
+
+/-- `WithProfiles` repartitions **from the union of both sets**: the result depends on the services known to the project
+and not on how they are currently split, so applying it after another `WithProfiles` forgets the earlier one -/
+theorem profiles_forgets_partition {p : Proj} (h : Partition p) (P Q : List String) :
+    LookEq (withProfiles (withProfiles p P) Q).services (withProfiles p Q).services ∧
+    LookEq (withProfiles (withProfiles p P) Q).disabled (withProfiles p Q).disabled ∧
+    (withProfiles (withProfiles p P) Q).profiles = (withProfiles p Q).profiles := by
+  have hp := withProfiles_partition h P
+  refine ⟨fun k => ?_, fun k => ?_, rfl⟩
+  · rw [lookup_withProfiles_services hp, lookup_withProfiles_services h, find_withProfiles h]
+  · rw [lookup_withProfiles_disabled hp, lookup_withProfiles_disabled h, find_withProfiles h]
+
+/-- in particular `WithProfiles P` is idempotent -/
+theorem profiles_idempotent {p : Proj} (h : Partition p) (P : List String) :
+    LookEq (withProfiles (withProfiles p P) P).services (withProfiles p P).services ∧
+    LookEq (withProfiles (withProfiles p P) P).disabled (withProfiles p P).disabled :=
+  ⟨(profiles_forgets_partition h P P).1, (profiles_forgets_partition h P P).2.1⟩
+
+/-- every history of `WithProfiles` calls is its last call -/
+theorem profiles_history {p : Proj} (h : Partition p) (Ps : List (List String)) (Q : List String) :
+    LookEq (run p ((Ps ++ [Q]).map Op.profiles)).services (withProfiles p Q).services ∧
+    LookEq (run p ((Ps ++ [Q]).map Op.profiles)).disabled (withProfiles p Q).disabled := by
+  induction Ps generalizing p with
+  | nil => exact ⟨fun _ => rfl, fun _ => rfl⟩
+  | cons P Ps ih =>
+    have hp := withProfiles_partition h P
+    have := ih hp
+    simp only [List.cons_append, List.map_cons, run_cons, applyOp]
+    refine ⟨fun k => ?_, fun k => ?_⟩
+    · rw [this.1 k]; exact (profiles_forgets_partition h P Q).1 k
+    · rw [this.2 k]; exact (profiles_forgets_partition h P Q).2.1 k
+
 /-! ## non-vacuity -/
 
 def exSvc (name : String) (profiles : List String) (deps : AL Dep) : Svc :=
